@@ -38,6 +38,18 @@ CHECKS = {
              "entry or block level is left behind.",
         note="trusted: the reference interpreter (structured semantics of the manual), the step budget (200000 statements) as the non-termination verdict",
         design="DESIGN.md section 4, C06"),
+    "C07": dict(
+        engine="E1 space",
+        technique="bounded exhaustive enumeration of (wrapper chain x failing operation x handler list) programs on the real interpreter, compared with a reference interpreter, followed by residue probes in the same context",
+        text="Every chain of depth 0..3 of wrappers {for, while, forall, if, begin with each handler list, begin whose handler re-raises / fails / breaks / "
+             "continues / returns} around every failing operation (two user errors, 1/0, raise out_of_range, a non-catchable index error, a failing function, "
+             "a function failing inside its own loop, a failing argument, an error inside a for begin/end/step, while/if condition, return or assignment "
+             "expression) is run as a top-level program through the C++ API and the C API and as a function body. The reference interpreter decides which "
+             "handler runs, error@1/@2, the printed trace and the error number/text reported to the host. The program is then run a second time, a top-level "
+             "break/continue must not swallow the next statement, and probe statements check that no loop, iterator constraint, table lock, pending "
+             "break/continue/return or block level survived.",
+        note="trusted: the reference interpreter vf/ctl.py; the interactive statement loop of the bloc command is covered by the C19 check",
+        design="DESIGN.md section 4, C07"),
 }
 
 NOT_YET = {}
